@@ -256,6 +256,7 @@ func (e *Env) Drive(bound time.Duration) *Result {
 	t0 := time.Now()
 
 	var stopOnce sync.Once
+	var stopWG sync.WaitGroup // async stop goroutines; awaited before the trace is read
 	stop := func() {
 		stopOnce.Do(func() {
 			w.Record(EvStopCall)
@@ -269,7 +270,8 @@ func (e *Env) Drive(bound time.Duration) *Result {
 		case "event":
 			w.AddHook(func(w *World, ev Event, a *Attempt) {
 				if ev.Seq+1 == st.N && ev.Kind != EvStopCall && ev.Kind != EvStopRet {
-					go stop()
+					stopWG.Add(1)
+					go func() { defer stopWG.Done(); stop() }()
 				}
 			})
 		case "create":
@@ -278,9 +280,11 @@ func (e *Env) Drive(bound time.Duration) *Result {
 					if st.Gate {
 						ch := make(chan struct{})
 						a.SetGate(ch)
-						go func() { time.Sleep(delay); stop(); close(ch) }()
+						stopWG.Add(1)
+						go func() { defer stopWG.Done(); time.Sleep(delay); stop(); close(ch) }()
 					} else {
-						go func() { time.Sleep(delay); stop() }()
+						stopWG.Add(1)
+						go func() { defer stopWG.Done(); time.Sleep(delay); stop() }()
 					}
 				}
 			})
@@ -297,7 +301,8 @@ func (e *Env) Drive(bound time.Duration) *Result {
 					if delay == 0 {
 						stop()
 					} else {
-						go func() { time.Sleep(delay); stop() }()
+						stopWG.Add(1)
+						go func() { defer stopWG.Done(); time.Sleep(delay); stop() }()
 					}
 				}
 			})
@@ -440,6 +445,9 @@ loop:
 		if c.Stop != nil && c.Stop.Trigger == "end" {
 			stop()
 		}
+	}
+	if finished {
+		stopWG.Wait()
 	}
 	if done != nil && finished {
 		close(done)
